@@ -351,17 +351,11 @@ pub fn run<B: Base>(job: &Value, x: &[B], x2: Option<&[B]>) -> (Vec<Rel<B>>, Val
         // library's own value, per contribution, direction job["seed"][0]
         "fd" => {
             let m = build(&job["model"]);
-            let s = Seed::parse(job["seed"][0].as_str().unwrap());
-            let lift = |x: B, w: Seed| {
-                let mut d = Dual::<B, f64>::from_re(x);
-                if w == s {
-                    d.eps = B::one();
-                }
-                d
-            };
-            let c = m.contribs(&state_with(t, v, &n, lift));
+            let seeds: Vec<Seed> = job["seed"].as_array().unwrap().iter().map(|x| Seed::parse(x.as_str().unwrap())).collect();
+            let label: String = job["seed"].as_array().unwrap().iter().map(|x| format!("d{}", x.as_str().unwrap())).collect();
+            let s = *seeds.last().unwrap(); // direction of the finite difference
             let h = job["h"].as_f64().unwrap_or(1e-6);
-            let shift = |f: f64| -> Vec<(String, B)> {
+            let point = |f: f64| -> (B, B, Vec<B>) {
                 let mut t2 = t;
                 let mut v2 = v;
                 let mut n2 = n.clone();
@@ -370,17 +364,90 @@ pub fn run<B: Base>(job: &Value, x: &[B], x2: Option<&[B]>) -> (Vec<Rel<B>>, Val
                     Seed::V => v2 = v * (1.0 + f * h),
                     Seed::N(i) => n2[i] = n[i] * (1.0 + f * h),
                 }
-                m.contribs(&StateHD::new(t2, v2, Array1::from(n2)))
+                (t2, v2, n2)
             };
-            let (cp, cm) = (shift(1.0), shift(-1.0));
             let x0 = match s {
                 Seed::T => t,
                 Seed::V => v,
                 Seed::N(i) => n[i],
             };
-            for (k, (name, d)) in c.into_iter().enumerate() {
-                let fd = (cp[k].1 - cm[k].1) / (x0 * (2.0 * h));
-                rels.push(Rel { name: format!("d{}:{}", job["seed"][0].as_str().unwrap(), name), a: fd, b: d.eps, d: 0 });
+            match seeds.len() {
+                // first order: dual part vs central difference of the library's own value
+                1 => {
+                    let lift = |x: B, w: Seed| {
+                        let mut d = Dual::<B, f64>::from_re(x);
+                        if w == s {
+                            d.eps = B::one();
+                        }
+                        d
+                    };
+                    let c = m.contribs(&state_with(t, v, &n, lift));
+                    let val = |f: f64| -> Vec<(String, B)> {
+                        let (t2, v2, n2) = point(f);
+                        m.contribs(&StateHD::new(t2, v2, Array1::from(n2)))
+                    };
+                    let (cp, cm) = (val(1.0), val(-1.0));
+                    for (k, (name, d)) in c.into_iter().enumerate() {
+                        let fd = (cp[k].1 - cm[k].1) / (x0 * (2.0 * h));
+                        rels.push(Rel { name: format!("{label}:{name}"), a: fd, b: d.eps, d: 0 });
+                    }
+                }
+                // second order (pure or mixed): hyper-dual part vs central difference of the first-order dual part
+                2 => {
+                    let s1 = seeds[0];
+                    let lift = |x: B, w: Seed| {
+                        let mut d = HyperDual::<B, f64>::from_re(x);
+                        if w == s1 {
+                            d.eps1 = B::one();
+                        }
+                        if w == s {
+                            d.eps2 = B::one();
+                        }
+                        d
+                    };
+                    let c = m.contribs(&state_with(t, v, &n, lift));
+                    let first = |f: f64| -> Vec<(String, Dual<B, f64>)> {
+                        let (t2, v2, n2) = point(f);
+                        m.contribs(&state_with(t2, v2, &n2, |x: B, w: Seed| {
+                            let mut d = Dual::<B, f64>::from_re(x);
+                            if w == s1 {
+                                d.eps = B::one();
+                            }
+                            d
+                        }))
+                    };
+                    let (cp, cm) = (first(1.0), first(-1.0));
+                    for (k, (name, d)) in c.into_iter().enumerate() {
+                        let fd = (cp[k].1.eps - cm[k].1.eps) / (x0 * (2.0 * h));
+                        rels.push(Rel { name: format!("{label}:{name}"), a: fd, b: d.eps1eps2, d: 0 });
+                    }
+                }
+                // third order (pure): Dual3 part vs central difference of the Dual2 second derivative
+                _ => {
+                    let lift = |x: B, w: Seed| {
+                        let mut d = Dual3::<B, f64>::from_re(x);
+                        if w == s {
+                            d.v1 = B::one();
+                        }
+                        d
+                    };
+                    let c = m.contribs(&state_with(t, v, &n, lift));
+                    let second = |f: f64| -> Vec<(String, Dual2<B, f64>)> {
+                        let (t2, v2, n2) = point(f);
+                        m.contribs(&state_with(t2, v2, &n2, |x: B, w: Seed| {
+                            let mut d = Dual2::<B, f64>::from_re(x);
+                            if w == s {
+                                d.v1 = B::one();
+                            }
+                            d
+                        }))
+                    };
+                    let (cp, cm) = (second(1.0), second(-1.0));
+                    for (k, (name, d)) in c.into_iter().enumerate() {
+                        let fd = (cp[k].1.v2 - cm[k].1.v2) / (x0 * (2.0 * h));
+                        rels.push(Rel { name: format!("{label}:{name}"), a: fd, b: d.v3, d: 0 });
+                    }
+                }
             }
         }
         // C08-6: Peng-Robinson pressure (as the library differentiates it: -d(A_res)/dV through Dual numbers)
